@@ -334,9 +334,9 @@ def main(argv=None):
         tb = traceback.format_exc()
         traceback.print_exc()
         ctx.notes.append('exploration aborted: ' + tb[-800:])
-        explicit = isinstance(exc, AssertionError) and str(exc).startswith(('harness', 'vacuous', 'operation ', 'only '))
+        explicit = isinstance(exc, AssertionError) and str(exc).startswith(('harness', 'only '))
         if explicit:
-            # a self-check of the machinery failed (vacuity, scheduler hang, lock replacement ...): not a statement about the code
+            # a self-check of the machinery failed (scheduler hang, replay divergence, lock replacement ...): not a statement about the code
             print(f'HARNESS-ERROR property={prop}: exploration aborted by a failed self-check of the harness')
             try:
                 write_evidence(ctx, len(ctx.violations), 0)
